@@ -55,11 +55,20 @@ type c12Store struct {
 	// key-not-found" on top of rosmar (whose remove() tombstones a tombstone successfully).
 	cbsDelete atomic.Bool
 	delMu     sync.Mutex
-	delHeld   sync.Map // op.N -> struct{} for Delete ops that hold delMu between Pre and Post
+	// failDelete: fail every Delete/Remove whose key contains Key with Err, without applying it (injected fault)
+	failDelete atomic.Pointer[c12DelFault]
+	delHeld    sync.Map // op.N -> struct{} for Delete ops that hold delMu between Pre and Post
 
 	mu  sync.Mutex
 	log []string // "actor:Kind(keyclass)=err" of actor goroutines (for witnesses)
 }
+
+type c12DelFault struct {
+	Key string
+	Err error
+}
+
+var c12ErrInjected = fmt.Errorf("verif: injected storage error (temporary failure)")
 
 func c12NewStore(t testing.TB) *c12Store {
 	s := &c12Store{t: t, ctx: base.TestCtx(t)}
@@ -88,6 +97,11 @@ func (s *c12Store) pre(op *base.VerifOp) base.VerifDecision {
 	if sc := s.sched.Load(); sc != nil {
 		if _, ok := sc.ActorOf(op.Gid); ok {
 			sc.StepGid(op.Gid, op.Kind+"("+c12KeyClass(op.Key)+")")
+		}
+	}
+	if op.Kind == "Delete" || op.Kind == "Remove" {
+		if f := s.failDelete.Load(); f != nil && strings.Contains(op.Key, f.Key) {
+			return base.VerifDecision{Action: base.VerifFailBefore, Err: f.Err}
 		}
 	}
 	if (op.Kind == "Delete" || op.Kind == "Remove") && s.cbsDelete.Load() {
@@ -667,8 +681,12 @@ func (h *c12Hist) authPassword(name, pw, class, via string, hop bool, held User)
 }
 
 // authSession presents a session id through AuthenticateCookie or AuthenticateOneTimeSession.
-func (h *c12Hist) authSession(s *c12MSess, id, via string, hop bool) {
+func (h *c12Hist) authSession(s *c12MSess, id, via string, hop bool, fault error) {
 	mustReject, reason := h.expectSession(s)
+	if fault != nil && !mustReject && s != nil && s.oneTime {
+		// the delete that consumes the one-time session fails: "not allowing login" (deleteOneTimeSession)
+		mustReject, reason = true, "one-time-session-consuming-delete-failed"
+	}
 	exp := "accept"
 	if mustReject {
 		exp = "reject:" + reason
@@ -684,6 +702,11 @@ func (h *c12Hist) authSession(s *c12MSess, id, via string, hop bool) {
 	}
 	var u User
 	var err error
+	if fault != nil {
+		o.Class += fmt.Sprintf(" fault=Delete(session) fails with %q", fault.Error())
+		h.st.failDelete.Store(&c12DelFault{Key: id, Err: fault})
+		h.run.Count("presentations_with_failing_delete", 1)
+	}
 	c12Hop(hop, func() {
 		if via == "AuthenticateCookie" {
 			u, err = c12CookieAuth(h.a, id)
@@ -691,8 +714,13 @@ func (h *c12Hist) authSession(s *c12MSess, id, via string, hop bool) {
 			u, err = h.a.AuthenticateOneTimeSession(h.st.ctx, id)
 		}
 	})
+	h.st.failDelete.Store(nil)
 	accepted := err == nil && u != nil
 	h.run.Count("attempts_session", 1)
+	if err != nil && u != nil {
+		o.Result = fmt.Sprintf("error %v together with user %s", err, u.Name())
+	}
+	c12CheckPair(h.run, via, u, err, h.witness())
 	if accepted {
 		o.Result = "accepted as " + u.Name()
 		h.run.Count("accepted_session", 1)
@@ -700,10 +728,13 @@ func (h *c12Hist) authSession(s *c12MSess, id, via string, hop bool) {
 		if s == nil || u.Name() != s.user {
 			h.violation("identity", "C12|auth|session|authenticated-as-different-user", "session authenticated as "+u.Name())
 		}
-	} else {
+	} else if o.Result == "" {
 		o.Result = fmt.Sprintf("rejected (%v)", err)
 	}
 	if mustReject {
+		if reason == "one-time-session-consuming-delete-failed" {
+			h.run.Count("live_one_time_presented_with_failing_delete", 1)
+		}
 		h.run.Count("must_reject_session", 1)
 		h.run.Distinct("reject_reasons", "session:"+reason)
 		if strings.HasPrefix(reason, "session-before") || strings.HasPrefix(reason, "session-of-deleted") {
@@ -815,10 +846,19 @@ func (h *c12Hist) step() {
 			via = "AuthenticateOneTimeSession"
 		}
 		if len(h.sess) == 0 || r.Chance(1, 12) {
-			h.authSession(nil, fmt.Sprintf("bogus%x", r.Intn(1<<30)), via, hop)
+			h.authSession(nil, fmt.Sprintf("bogus%x", r.Intn(1<<30)), via, hop, nil)
 		} else {
 			s := vlib.Pick(r, h.sess)
-			h.authSession(s, s.id, via, hop)
+			var fault error
+			if s.oneTime && r.Chance(1, 2) {
+				// the consuming delete fails: a temporary storage error, or key-not-found as for the loser of two
+				// concurrent presentations on Couchbase Server
+				fault = c12ErrInjected
+				if r.Bool() {
+					fault = sgbucket.MissingError{Key: s.id}
+				}
+			}
+			h.authSession(s, s.id, via, hop, fault)
 		}
 	case k < 96:
 		h.opSplitAttack(existing)
@@ -943,7 +983,17 @@ type c12Pres struct {
 	Err      string `json:"err,omitempty"`
 }
 
-func c12Present(st *c12Store, a *Authenticator, via, id string) (bool, string) {
+// c12CheckPair: an authentication call that returns an error must not hand out a user with it: callers that
+// tolerate the error (rest/handler.go on public routes) would treat the request as authenticated.
+func c12CheckPair(run *vlib.Run, via string, u User, err error, wit any) {
+	run.Count("result_pairs_checked", 1)
+	if err != nil && u != nil {
+		c12Violation(run, "result-pair", "C12|auth|"+via+"|error-returned-together-with-a-user",
+			fmt.Sprintf("%s returned user %q together with error %v", via, u.Name(), err), wit)
+	}
+}
+
+func c12Present(run *vlib.Run, st *c12Store, a *Authenticator, via, id string) (bool, string) {
 	var u User
 	var err error
 	if via == "AuthenticateCookie" {
@@ -951,6 +1001,7 @@ func c12Present(st *c12Store, a *Authenticator, via, id string) (bool, string) {
 	} else {
 		u, err = a.AuthenticateOneTimeSession(st.ctx, id)
 	}
+	c12CheckPair(run, via, u, err, map[string]any{"call": via, "session": "one-time or regular session presented while other presentations / a logout run; see the part's schedule samples", "error": fmt.Sprint(err)})
 	if err != nil {
 		return false, err.Error()
 	}
@@ -1015,7 +1066,7 @@ func c12OneTimeRace(t *testing.T, run *vlib.Run, st *c12Store) {
 					runtime.Gosched()
 				}
 				pres[g].Inv = tick.Add(1)
-				ok, e := c12Present(st, a, pres[g].Via, sess.ID)
+				ok, e := c12Present(run, st, a, pres[g].Via, sess.ID)
 				pres[g].Ret = tick.Add(1)
 				pres[g].Accepted, pres[g].Err = ok, e
 			}(g)
@@ -1070,8 +1121,8 @@ func c12OneTimeRace(t *testing.T, run *vlib.Run, st *c12Store) {
 				fmt.Sprintf("case %d: %d of %d presentations of one one-time session authenticated", i, acc, k), wit)
 		}
 		// none after the first success returned
-		ok, _ := c12Present(st, a, "AuthenticateOneTimeSession", sess.ID)
-		ok2, _ := c12Present(st, a, "AuthenticateCookie", sess.ID)
+		ok, _ := c12Present(run, st, a, "AuthenticateOneTimeSession", sess.ID)
+		ok2, _ := c12Present(run, st, a, "AuthenticateCookie", sess.ID)
 		run.Count("late_presentations", 2)
 		if ok || ok2 {
 			c12Violation(run, "consume-once", "C12|one-time|presented-after-all-returned|accepted|"+c12StoreMode(cbs),
@@ -1240,7 +1291,7 @@ func TestVerif_C12_Sched(t *testing.T) {
 				if g == 1 {
 					via = "AuthenticateCookie"
 				}
-				actors[fmt.Sprintf("p%d", g)] = func() { res[g], _ = c12Present(st, a, via, sess.ID) }
+				actors[fmt.Sprintf("p%d", g)] = func() { res[g], _ = c12Present(run, st, a, via, sess.ID) }
 			}
 			sc := runSched(ex.Chooser(), actors)
 			ex.Done(sc)
@@ -1264,7 +1315,7 @@ func TestVerif_C12_Sched(t *testing.T) {
 			} else if acc == 1 {
 				run.Count("onetime_exactly_one", 1)
 			}
-			late, _ := c12Present(st, a, "AuthenticateOneTimeSession", sess.ID)
+			late, _ := c12Present(run, st, a, "AuthenticateOneTimeSession", sess.ID)
 			if late {
 				c12Violation(run, "consume-once", "C12|one-time|presented-after-all-returned|accepted|"+c12StoreMode(scn.cbs), "one-time session authenticated again after all presentations returned", wit)
 			}
@@ -1310,7 +1361,7 @@ func TestVerif_C12_Sched(t *testing.T) {
 		var cookieOK bool
 		var logoutErr error
 		sc := runSched(ex.Chooser(), map[string]func(){
-			"cookie": func() { cookieOK, _ = c12Present(st, a, "AuthenticateCookie", p.sess.ID) },
+			"cookie": func() { cookieOK, _ = c12Present(run, st, a, "AuthenticateCookie", p.sess.ID) },
 			"logout": func() { logoutErr = a.DeleteSession(st.ctx, p.sess.ID, p.name) },
 		})
 		ex.Done(sc)
@@ -1327,7 +1378,7 @@ func TestVerif_C12_Sched(t *testing.T) {
 		}
 		run.Distinct("schedules", "logout"+sc.Fingerprint())
 		run.Nontrivial("logout|" + sc.Fingerprint())
-		after, _ := c12Present(st, a, "AuthenticateCookie", p.sess.ID)
+		after, _ := c12Present(run, st, a, "AuthenticateCookie", p.sess.ID)
 		wit := map[string]any{"scenario": "session with ttl 20s, 2.3 s old (so a presentation refreshes it); actor cookie: AuthenticateCookie, actor logout: DeleteSession; then AuthenticateCookie again",
 			"schedule": sc.Trace, "choices": sc.Choices, "storage_ops": ops, "cookie_accepted": cookieOK, "logout_error": fmt.Sprint(logoutErr), "accepted_after_both_returned": after}
 		if i == 0 {
@@ -1348,7 +1399,7 @@ func TestVerif_C12_Sched(t *testing.T) {
 		var cookieOK bool
 		var pwErr error
 		sc := runSched(ex.Chooser(), map[string]func(){
-			"cookie": func() { cookieOK, _ = c12Present(st, a, "AuthenticateCookie", p.sess.ID) },
+			"cookie": func() { cookieOK, _ = c12Present(run, st, a, "AuthenticateCookie", p.sess.ID) },
 			"setpw": func() {
 				u, err := a.GetUser(p.name)
 				if err == nil && u != nil {
@@ -1365,7 +1416,7 @@ func TestVerif_C12_Sched(t *testing.T) {
 		run.Count("pwchange_vs_cookie_schedules", 1)
 		run.Distinct("schedules", "setpw"+sc.Fingerprint())
 		run.Nontrivial("setpw|" + sc.Fingerprint())
-		after, _ := c12Present(st, a, "AuthenticateCookie", p.sess.ID)
+		after, _ := c12Present(run, st, a, "AuthenticateCookie", p.sess.ID)
 		if after && pwErr == nil {
 			c12Violation(run, "model", "C12|auth|AuthenticateCookie|session-before-password-change|accepted|password-change-concurrent-with-presentation",
 				"password change returned success, yet the older session authenticates afterwards",
@@ -1374,6 +1425,85 @@ func TestVerif_C12_Sched(t *testing.T) {
 	}
 	if ex.Exhausted() {
 		run.Count("exhausted_pwchange_vs_cookie", 1)
+	}
+
+	// (4) login-triggered rehash vs password change. Users are created at bcrypt.MinCost; the login goes through an
+	// Authenticator configured with MinCost+1 (bcrypt cost raised in the config, user not yet rehashed), so a
+	// successful password check is followed by rehashPassword (casUpdatePrincipal: WriteCas of the user, reload and
+	// retry on CAS loss). A password change is interleaved at every storage step. After both returned and the change
+	// was acknowledged, the old password must be rejected (CredModel: current password = the new one).
+	// Variant "setter-at-old-cost": the password change is written by an Authenticator still configured with the
+	// old cost (another node mid-way through a config change); recorded separately, see c12MixedCostDeciding.
+	aHigh := st.newAuth(fmt.Sprintf("c12sched%d", run.Seed))
+	aHigh.BcryptCost = bcrypt.MinCost + 1
+	aHigh.bcryptCostChanged = true // what SetBcryptCost records; SetBcryptCost itself refuses costs below the default
+	for _, variant := range []string{"setter-at-configured-cost", "setter-at-old-cost"} {
+		setter := aHigh
+		if variant == "setter-at-old-cost" {
+			setter = a
+		}
+		ex = vlib.NewExplorer(3, 40)
+		maxRuns := run.N(80, 400)
+		for !ex.Exhausted() && ex.Runs < maxRuns {
+			name, _ := newUser()
+			oldPw, newPw := "pw-"+name, "new-"+name
+			var loginOK bool
+			var loginErr, pwErr error
+			sc := runSched(ex.Chooser(), map[string]func(){
+				"login": func() {
+					u, err := aHigh.AuthenticateUser(name, oldPw)
+					loginOK, loginErr = err == nil && u != nil, err
+					c12CheckPair(run, "AuthenticateUser", u, err, nil)
+				},
+				"setpw": func() {
+					u, err := setter.GetUser(name)
+					if err == nil && u != nil {
+						if err = u.SetPassword(newPw); err == nil {
+							err = setter.Save(u)
+						}
+					}
+					pwErr = err
+				},
+			})
+			ex.Done(sc)
+			run.Eval()
+			ops := st.takeLog()
+			casLost := false
+			for _, o := range ops {
+				if o == "login:WriteCas(user)=err" {
+					casLost = true
+				}
+			}
+			run.Count("rehash_vs_pwchange_schedules", 1)
+			if casLost {
+				run.Count("rehash_lost_cas_to_password_change", 1)
+			}
+			run.Distinct("schedules", "rehash"+variant+sc.Fingerprint())
+			run.Nontrivial("rehash|" + variant + "|" + sc.Fingerprint())
+			oldAfter, _ := aHigh.AuthenticateUser(name, oldPw)
+			newAfter, _ := aHigh.AuthenticateUser(name, newPw)
+			wit := map[string]any{"scenario": "user created with bcrypt cost 4; actor login: AuthenticateUser(old password) on an Authenticator configured with cost 5 (rehash after the check); actor setpw: GetUser, SetPassword(new), Save; then AuthenticateUser with the old and with the new password",
+				"variant": variant, "schedule": sc.Trace, "choices": sc.Choices, "storage_ops": ops, "login_accepted": loginOK, "login_error": fmt.Sprint(loginErr),
+				"password_change_error": fmt.Sprint(pwErr), "old_password_accepted_afterwards": oldAfter != nil, "new_password_accepted_afterwards": newAfter != nil}
+			if ex.Runs <= 1 {
+				run.Sample(wit)
+			}
+			if pwErr != nil {
+				run.Count("rehash_password_change_lost_cas", 1) // change not acknowledged: nothing to assert
+				continue
+			}
+			run.Count("rehash_acknowledged_password_changes_judged", 1)
+			if oldAfter != nil {
+				sig := "C12|auth|password|old-password|accepted|password-change-overlapped-by-rehash-retry-of-concurrent-login|" + variant
+				c12Violation(run, "model", sig, "the password change was acknowledged, yet the replaced password authenticates afterwards: the rehash of a concurrent login lost its CAS, was retried on the reloaded user and wrote a hash of the old password", wit)
+			} else if newAfter == nil {
+				run.Count("unexpected_reject", 1)
+				run.Inconclusive("model expected accept for the new password after a password change")
+			}
+		}
+		if ex.Exhausted() {
+			run.Count("exhausted_rehash_vs_pwchange_"+variant, 1)
+		}
 	}
 	st.cbsDelete.Store(false)
 }
